@@ -51,7 +51,10 @@ struct Case
         dst.io(a);
         if (a.writing || a.peekName() == "payloadDiff")
             a.num("payloadDiff", payloadDiff);
+        a.optionalNum("refBefore", refBefore);
     }
+    uint8_t refBefore{0};  // packet copies: 1 = the writable payload reference of the source is obtained BEFORE the copy is made and the
+                           // source is later modified through that old reference (what code holding on to `auto& pl = p.getPayload()` does)
 };
 
 // bytes of an equal-looking payload: one bit flipped / last byte dropped / one byte appended
@@ -245,6 +248,7 @@ static Verdict runPacket(const Case& c, Info& info)
     Snap result;
     std::unique_ptr<lib::Packet> made;
     lib::Packet* res = nullptr;
+    lib::Payload* srcPayloadRef = (c.refBefore && c.op <= 1 && src.verifHasPayload()) ? &src.getPayload() : nullptr;
     switch (c.op)
     {
         case 0:
@@ -276,15 +280,28 @@ static Verdict runPacket(const Case& c, Info& info)
         // copies share no state: mutate the copy, the source must not move; then destroy the source
         VF_CHECK(snap(src) == before, "copying changed the source");
         VF_TRY(equalityLaws(src, *res, "copy vs source"));
+        Snap srcNow = before;
+        if (srcPayloadRef)
+        {
+            // first of all, before anything else touches either object: the source is modified through the reference taken
+            // before the copy existed
+            srcPayloadRef->setRawPayloadType(static_cast<uint8_t>(before.rawType ^ 0x12));
+            VF_CHECK(snap(*res) == before, "modifying the source through a payload reference obtained before the copy was made changed the copy: "
+                                               << snap(*res).str() << " was " << before.str());
+            srcNow = snap(src);
+            info.tag("source_modified_through_reference_taken_before_the_copy");
+        }
         res->setTimestamp(before.ts + 1);
         res->setCommonFlags(static_cast<uint8_t>(before.flags ^ 0x21));
         if (res->verifHasPayload())
             res->getPayload().setRawPayloadType(static_cast<uint8_t>(res->getPayloadType() ^ 0x01));
-        VF_CHECK(snap(src) == before, "mutating the copy changed the source");
+        VF_CHECK(snap(src) == srcNow, "mutating the copy changed the source");
         // and the other way round
         Snap copySnap = snap(*res);
         src.setDeviceId(static_cast<uint16_t>(before.device + 1));
-        if (src.verifHasPayload())
+        if (srcPayloadRef)
+            srcPayloadRef->setMessageType(lib::CmpHeader::MessageType::vendor);
+        else if (src.verifHasPayload())
             src.getPayload().setMessageType(lib::CmpHeader::MessageType::vendor);
         VF_CHECK(snap(*res) == copySnap, "mutating the source changed the copy");
         srcPtr.reset();
@@ -577,6 +594,7 @@ static rc::Gen<Case> genCase(int)
         c.op = *range<uint8_t>(0, 3);
         c.src = *genSpec();
         c.dst = *genSpec();
+        c.refBefore = *range<uint8_t>(0, 1);
         if (c.relation == 4)
         {
             c.dst.seq = *range<uint16_t>(0, 8);   // which field differs
